@@ -68,6 +68,35 @@ def wrap_helper(fn: ast.FunctionDef) -> bool:
     return False
 
 
+def pair_generator(fn: ast.FunctionDef) -> bool:
+    """a generator f(X) that yields (i, successor of i with wrap-around) for every i in range(len(X)):
+           count = len(X);  for i in range(count): yield i, (i + 1) % count"""
+    args = [a.arg for a in fn.args.args]
+    if len(args) != 1:
+        return False
+    loops = [n for n in ast.walk(fn) if isinstance(n, ast.For)]
+    yields = [n for n in ast.walk(fn) if isinstance(n, (ast.Yield, ast.YieldFrom))]
+    if len(loops) != 1 or len(yields) != 1 or not isinstance(yields[0], ast.Yield):
+        return False
+    lp, y = loops[0], yields[0].value
+    if not (isinstance(lp.target, ast.Name) and isinstance(lp.iter, ast.Call) and isinstance(lp.iter.func, ast.Name)
+            and lp.iter.func.id == "range" and len(lp.iter.args) == 1):
+        return False
+    i = lp.target.id
+    defs = single_defs(fn, args)
+
+    def norm(e):
+        return txt(expand_locals(fn, e, args, defs=defs))
+
+    N = norm(lp.iter.args[0])
+    if N != "len(%s)" % args[0]:
+        return False
+    if not (isinstance(y, ast.Tuple) and len(y.elts) == 2 and isinstance(y.elts[0], ast.Name) and y.elts[0].id == i):
+        return False
+    s = y.elts[1]
+    return isinstance(s, ast.BinOp) and isinstance(s.op, ast.Mod) and _is_succ(s.left, i) and norm(s.right) == N
+
+
 def _index_of(target, it):
     """loop variable that runs over 0 .. N-1 and the text of N:  `for i in range(N)`  /  `for i, x in enumerate(X)`"""
     if isinstance(target, ast.Name):
@@ -145,6 +174,13 @@ def cycle_loops(fi: FunctionInfo, ctx=None) -> List[Dict]:
                             "(last, first) or some other pair is not visited" % (txt(it), X, txt(second)))
         out.append({"loop": it, "var": "pair", "range": txt(it), "flows": 1, "problems": problems,
                     "idiom": "zip with rotation"})
+    # for a, b in <pair generator>(X): the helper walks the whole closed ring of X
+    for n in walk_local(fi.node):
+        it = n.iter if isinstance(n, (ast.For, ast.comprehension)) else None
+        if isinstance(it, ast.Call) and isinstance(it.func, ast.Name) and len(it.args) == 1 and not it.keywords:
+            b = fi.resolve(it.func.id)
+            if b is not None and b.kind == "func" and pair_generator(b.target.node):
+                out.append({"loop": it, "var": "pair", "range": txt(it), "flows": 1, "problems": [], "idiom": "pair generator %s" % it.func.id})
     for loop, i, it, body in _loops(fi):
         if not (isinstance(it, ast.Call) and isinstance(it.func, ast.Name) and it.func.id == "range"):
             continue
